@@ -66,6 +66,8 @@ func run(raw json.RawMessage) (c lib.Case) {
 		return runConfig(in)
 	case "localflood":
 		return runLocalFlood(in)
+	case "mute":
+		return runMute(in)
 	case "cluster":
 		return runClusterParent(in, raw)
 	}
@@ -364,6 +366,9 @@ func corpus() []interface{} {
 		input{Kind: "config", TCP: true, Warm: false})
 	// in-memory transport under back-pressure (C09-N3): the queues of the victim's connection are
 	// full when it is stopped (np = messages sent; the thresholds are 202 and 403)
+	// a silently dead peer: only the read deadline tells the survivor (seeded change C09-F)
+	ins = append(ins, input{Kind: "mute", Label: "fresh", NH: 2}, input{Kind: "mute", Label: "used", NH: 1},
+		input{Kind: "mute", Label: "ident"})
 	ins = append(ins, input{Kind: "localflood", NP: 150}, input{Kind: "localflood", NP: 300}, input{Kind: "localflood", NP: 450})
 	ins = append(ins, corpusCluster()...)
 	return filterKinds(ins)
